@@ -96,4 +96,39 @@ inductive Routed
 def route (registered : List Nat) (r : Resp) : Routed :=
   if registered.contains r.token then .toReceiver r.token r.conn r.tag else .toDefault r.conn r.tag
 
+/-! ### discovery registration (`DiscoveryRequest`)
+
+`multicastHandler.LoadOrStore(token)`: a call whose token is already registered is refused and returns *before* any
+deferred clean-up is installed, so it leaves the table alone; only the call that registered an entry deletes it when it
+ends.  `running` = the (discovery id, token) pairs currently registered, in registration order. -/
+
+inductive DEv
+  | start (id tok : Nat)     -- DiscoveryRequest is called (LoadOrStore)
+  | finish (id : Nat)        -- the call with this id returns (its deferred deletes run, if it had registered)
+  | resp (r : Resp)          -- a response datagram arrives
+  deriving Repr, DecidableEq
+
+inductive DOut
+  | registered
+  | refused                  -- ErrKeyAlreadyExists
+  | done
+  | toReceiverOf (id : Nat) (conn : Nat) (tag : Nat)   -- the receiver passed by discovery `id`, with the sender's connection
+  | toDefault (conn : Nat) (tag : Nat)
+  deriving Repr, DecidableEq
+
+def dstep (s : List (Nat × Nat)) : DEv → List (Nat × Nat) × DOut
+  | .start id tok => if s.any (fun e => e.2 == tok) then (s, .refused) else (s ++ [(id, tok)], .registered)
+  | .finish id => (s.filter (fun e => e.1 != id), .done)
+  | .resp r =>
+    match s.find? (fun e => e.2 == r.token) with
+    | some e => (s, .toReceiverOf e.1 r.conn r.tag)
+    | none => (s, .toDefault r.conn r.tag)
+
+def drun (s : List (Nat × Nat)) (evs : List DEv) : List (Nat × Nat) := evs.foldl (fun s e => (dstep s e).1) s
+
+/-- outputs of a whole history -/
+def dtrace : List (Nat × Nat) → List DEv → List DOut
+  | _, [] => []
+  | s, e :: es => (dstep s e).2 :: dtrace (dstep s e).1 es
+
 end CoapVerif.Model.Server
